@@ -210,17 +210,25 @@ func (x *Exec) callAsserts(fr *frame, st *State, instr ssa.CallInstruction, c *s
 		for root.parent != nil {
 			root = root.parent
 		}
-		extra := map[string]smt.T{}
+		extra := map[string]binding{}
 		for k, r := range results {
-			extra[fmt.Sprintf("c%d", k)] = r
+			var rt types.Type
+			if k < c.Signature().Results().Len() {
+				rt = c.Signature().Results().At(k).Type()
+			}
+			extra[fmt.Sprintf("c%d", k)] = binding{r, rt}
 		}
 		as := args
 		if (c.IsInvoke() || c.Signature().Recv() != nil) && len(as) > 0 {
-			extra["recv"] = as[0]
+			extra["recv"] = binding{as[0], nil}
 			as = as[1:]
 		}
 		for k, a := range as {
-			extra[fmt.Sprintf("arg%d", k)] = a
+			var at types.Type
+			if k < c.Signature().Params().Len() {
+				at = c.Signature().Params().At(k).Type()
+			}
+			extra[fmt.Sprintf("arg%d", k)] = binding{a, at}
 		}
 		t, err := x.evalClauseExtra(ca.Cl.E, st, x.entry, fr, nil, extra)
 		if err != nil {
